@@ -245,6 +245,9 @@ def build_wellformed(rng, cls=2, data=1, opts=None):
         host = rng.choice(loads)
         tls = dict(p_type=PT_TLS, p_flags=4, p_vaddr=host["p_vaddr"], p_filesz=min(0x20, host["p_filesz"]),
                    p_memsz=rng.choice([0, 0x20, 0x60, min(host["p_memsz"], 0x800)]), p_align=8, _alias=host)
+        # the alignment field of the TLS header takes every kind of value the format allows (0 and 1 mean "none"; odd and
+        # huge values are merely unusual) - derived from values already drawn, so the random stream is unchanged
+        tls["p_align"] = (8, 0, 1, 16, 8, 4, 0x1000, 3, 1 << 63, 0)[(tls["p_memsz"] // 0x20 + (host["p_vaddr"] >> 12) + len(phdrs)) % 10]
         pos = phdrs.index(host) + 1
         phdrs.insert(rng.randrange(pos, len(phdrs) + 1), tls)
     e.phdrs = phdrs
